@@ -241,6 +241,12 @@ def case_st(draw, tier):
                 if "length" in row:
                     row["length"] = draw(len_st)
             lists[name] = rows_
+    if kind != "float" and draw(st.integers(0, 4)) == 0:
+        # the whole chart shifted so that its latest row sits at exactly 0 ms (everything else at negative times)
+        mx = max(r["offset"] for rows_ in lists.values() for r in rows_)
+        for rows_ in lists.values():
+            for r in rows_:
+                r["offset"] = r["offset"] - mx
     chart = dict(game=game, keys=keys, lists=lists, meta=draw(B.st_meta(game, keys)))
     override = draw(
         st.one_of(
@@ -320,6 +326,8 @@ def _labels(ctx, case, lists, tempo, svs, per, game):
     ctx.label("game=" + game)
     ctx.label("override" if case["override"] is not None else "no-override")
     ctx.label("tempo=1", len(tempo) == 1)
+    _all = [r["offset"] for rows_ in case["chart"]["lists"].values() for r in rows_]
+    ctx.label("latest-row-at-exactly-0ms", bool(_all) and max(_all) == 0 and min(_all) < 0)
     ctx.label("tempo>=6", len(tempo) >= 6)
     ctx.label("bpm-rows-unsorted", raw != sorted(raw))
     ctx.label("repeated-bpm-value", len(set(vals)) < len(vals))
